@@ -3,13 +3,14 @@ from checks import screenfam
 
 
 def run(ctx):
-    screenfam.run_screen(ctx, "C01", mix="draw")
+    q = ctx.tier == "quick"
+    screenfam.run_screen(ctx, "C01", mix="draw", model=(2, 3, 3, 12) if q else (4, 4, 3, 1))
     ctx.assumptions += [
         "the reference terminal is spec/Term.tla (deferred wrap, orphaned wide halves become garbage, BCE erase)",
         "rune widths for the terminal come from the harness's Unicode tables; East-Asian-ambiguous runes count as narrow",
         "nearest-palette sets come from the harness's own CIE76 code (ties accepted)",
     ]
-    ctx.finish("exploration",
-               rule="seeded random histories (SetContent/Fill/Clear/SetStyle/ShowCursor/SetCursorStyle/LockRegion/Show/Sync/"
+    ctx.finish("model_checking",
+               rule="M: TScreenModel (transcribed draw algorithm over the reference terminal) for the terminal variants; every transition ending in a draw replayed on a real screen of that variant; seeded random histories (SetContent/Fill/Clear/SetStyle/ShowCursor/SetCursorStyle/LockRegion/Show/Sync/"
                     "window resize/corruption) on every ECMA-48-family entry, with and without direct colour; distinct = "
                     "distinct (terminal, operation sequence); non-trivial = contains a draw that is checked")
